@@ -68,6 +68,9 @@ pub struct Model {
     pub maybe_content: BTreeMap<(Algo, String), Arc<Vec<u8>>>,
     /// link targets the user deleted (and no later step re-created)
     pub removed_targets: std::collections::BTreeSet<usize>,
+    /// link targets the harness wrote (and has not deleted): index -> blob. They belong to the
+    /// user: no cache call may delete, truncate or rewrite them
+    pub live_targets: BTreeMap<usize, usize>,
 }
 
 pub fn entry_matches(e: &Entry, key: &str, m: &MetaNorm) -> Result<(), String> {
@@ -132,6 +135,7 @@ impl Model {
             pure: false,
             maybe_content: BTreeMap::new(),
             removed_targets: Default::default(),
+            live_targets: BTreeMap::new(),
         }
     }
 
@@ -241,9 +245,25 @@ impl Model {
         if let Op::LinkTo(l) = &step.op {
             // (the harness re-creates the target file before every link call)
             self.removed_targets.remove(&l.target);
+            if !l.relative {
+                self.live_targets.insert(l.target, l.blob);
+            }
+        }
+        if let Op::RemoveTarget { target } = &step.op {
+            self.live_targets.remove(target);
         }
         self.step_inner(ctx, step, out, t0, t1)?;
         if !self.pure {
+            for (t, b) in &self.live_targets {
+                let p = ctx.target_path(*t);
+                match std::fs::read(&p) {
+                    Ok(bytes) if bytes[..] == ctx.blob(*b)[..] => {}
+                    Ok(bytes) => {
+                        return Err(format!("after {}: the linked file {} (the user's, outside the cache) was rewritten: it holds {} bytes now, {} were linked", step.op.name(), p.display(), bytes.len(), ctx.blob(*b).len()))
+                    }
+                    Err(e) => return Err(format!("after {}: the linked file {} (the user's, outside the cache) is gone: {e}", step.op.name(), p.display())),
+                }
+            }
             for t in &self.removed_targets {
                 if std::fs::symlink_metadata(ctx.target_path(*t)).is_ok() {
                     return Err(format!(
